@@ -188,6 +188,17 @@ def main():
     nviol = 0
     for i in bad:
         k, cn, mn, e, pi, prm, kind, v = rmeta[i]
+        meth = [m for c in chosen[k]["controllers"] if c["name"] == cn for m in c["methods"] if m["name"] == mn][0]
+        hit = None
+        for f in known:
+            mt = f.get("match", {})
+            if mt.get("kind") == "form-query-share-wire-name" and e in mt.get("engines", []) and prm["loc"] == "form" and \
+                    any((not q["ctx"]) and q["loc"] == "query" and C12.wire(q) == C12.wire(prm) for q in meth["params"]):
+                hit = f
+        if hit:
+            res.known(hit, "%s.%s: form field %s shares its wire name %s with a query parameter (engine %s)" % (
+                cn, mn, prm["name"], C12.wire(prm), e))
+            continue
         nviol += 1
         if nviol > 3:
             continue
